@@ -12,6 +12,7 @@ def stages():
     import aldy.minor
 
     rec = {"cn_model": [], "cn": [], "major": [], "minor": []}
+    rec["original"] = {"estimate_major": aldy.major.estimate_major}
     o_solve, o_cn, o_major, o_minor = aldy.cn.solve_cn_model, aldy.cn.estimate_cn, aldy.major.estimate_major, aldy.minor.estimate_minor
 
     def solve(gene, profile, cn_configs, max_cn, region_coverage, solver, debug=None, fusion_support=None):
@@ -23,7 +24,7 @@ def stages():
 
     def est_cn(gene, profile, coverage, solver, debug=None):
         res = o_cn(gene, profile, coverage, solver=solver, debug=debug)
-        rec["cn"].append({"coverage": coverage, "result": [(dict(s.solution), s.score) for s in res]})
+        rec["cn"].append({"coverage": coverage, "result": [(dict(s.solution), s.score) for s in res], "objects": list(res), "gene": gene})
         return res
 
     def est_major(gene, coverage, cn_solution, solver, identifier=0, debug=None):
